@@ -1,6 +1,7 @@
 """C16 — Segment labelling scores equal their clustering-index definitions."""
 import numpy as np
 from lib import core, propgen
+from harness.oracles import all as ALL
 
 ID = 'C16'
 UNITS = ['seg_cluster_q', 'index_labels', 'seg_entropy_skel']
@@ -48,7 +49,7 @@ def sweep(rng, n):
     return out
 
 
-oracle_search = propgen.budgeted([sweep])
+oracle_search = propgen.budgeted([sweep, ALL.for_property(ID)])
 
 
 _def_at = propgen.definitional_oracle_at(['seg_cluster_q', 'index_labels', 'seg_entropy_skel'], 'equals the textbook formula on the contingency table')
